@@ -22,6 +22,7 @@ pub mod hyboracle;
 pub mod hybchecks;
 pub mod c12check;
 pub mod c15check;
+pub mod c10check;
 
 use common::{Failure, ReplayFile, Tier, case_from};
 
@@ -31,6 +32,7 @@ pub fn dispatch(prop: &str, tier: Tier, seed: u64) -> i32 {
         "C01" => hybchecks::check_c01(tier, seed),
         "C05" => memchecks::check_c05(tier, seed),
         "C06" => fetchcheck::check_c06(tier, seed),
+        "C10" => c10check::check_c10(tier, seed),
         "C11" => fetchcheck::check_c11(tier, seed),
         "C12" => c12check::check_c12(tier, seed),
         "C13" => memchecks::check_c13(tier, seed),
@@ -59,6 +61,7 @@ pub fn replay(rf: &ReplayFile) -> anyhow::Result<Option<Failure>> {
         ("C16", _) => c16check::exec_c16(&case_from(rf)?).failure,
         ("C12", _) => c12check::exec_c12(&case_from(rf)?).failure,
         ("C15", _) => c15check::exec_c15(&case_from(rf)?).failure,
+        ("C10", _) => c10check::exec_c10(&case_from(rf)?).failure,
         ("C14", _) => evcheck::exec_c14(&case_from(rf)?).failure,
         ("C05" | "C13" | "C18", _) => memchecks::replay_mem(&rf.property, case_from(rf)?),
         (p, s) => anyhow::bail!("no replay handler for {p}/{s}"),
